@@ -56,13 +56,19 @@ def run(chk):
         if rng.random() < 0.5:
             P = P[::-1].copy()
         pts = query_points(rng, P, npts)
+        # any size: a third of the scenarios are rescaled exactly (polygon and query points) by a power of two between 2^-30 (1e-9) and 2^8
+        u = 1.0
+        if rng.random() < 0.34:
+            u = 2.0 ** int(rng.integers(-30, 9))
+            P, pts = P * u, pts * u
+            kind += "*2^k"
         mode = rng.choice(["xy3", "xy2", "placed"])
         V3 = np.c_[P, np.zeros(len(P))]
         Q3 = np.c_[pts, np.zeros(len(pts))]
         if mode == "placed":
             M, n = gen.random_rotation(rng, integer=True)
             s = 2.0 ** int(rng.integers(-2, 3))
-            t = gen.dy(rng.uniform(-5, 5, 3), 4)
+            t = gen.dy(rng.uniform(-5, 5, 3), 4) * u          # (the whole scenario is rescaled, the placement included)
             Vp, Qp = V3 @ M.T * s + t, Q3 @ M.T * s + t
         else:
             Vp, Qp = V3, (Q3 if mode == "xy3" else pts)
